@@ -201,6 +201,14 @@ def rule_l2(chk: Check, ix: Index):
     chk.require(ok, "L2-accumulation", "handle_end_progs:no-join-in-braces", he.where,
                 "after the f-string scanner has opened a replacement field the rest of the line is expression text; the line-joining tail "
                 "must be skipped when `state.in_braces()` (otherwise a field left open at a backslash-newline swallows the line without tokens)")
+    # a one-quote string that does not end on its line and is not continued must be refused, not left open: otherwise its text is
+    # scanned again as ordinary tokens and the next line is glued onto the opening quote
+    chk.count("L2-accumulation")
+    join_ifs = [n for n in own_nodes(he.node) if isinstance(n, ast.If) and any(".join_line(" in norm_stmt(s2) for s2 in n.body)]
+    ok = len(join_ifs) == 1 and any(isinstance(x, ast.Raise) for s2 in join_ifs[0].orelse for x in ast.walk(s2))
+    chk.require(ok, "L2-accumulation", "handle_end_progs:unterminated-string", he.where,
+                "when an open string neither ends on the current line nor continues (triple quote / backslash), the tokenizer must raise; "
+                "falling through re-scans the string's text as code and lets the next line close it")
     rs = ix.get("EndProg.reset")
     chk.count("L2-accumulation")
     chk.require(sorted(norm_stmt(s) for s in rs.node.body) == ["self.contline = ''", "self.start = start", "self.text = ''"],
@@ -302,6 +310,6 @@ def run(chk: Check):
     rule_l4(chk, ix)
     from .c03 import rule_t1
     rule_t1(chk, ix)
-    chk.floor("L2-accumulation", 9)
+    chk.floor("L2-accumulation", 10)
     chk.floor("L3-coverage", 15)
     chk.floor("L4-block-structure", 4)
